@@ -32,7 +32,9 @@ from . import hashmodel as hm
 
 TRUSTED = ["A-dict (membership, pop/KeyError, enumeration of a dict's keys)", "RendezvousHash contracts proved in C11",
            "node names of normalised server specs are distinct (injective _make_client_key)", "monotone clock (time.time)"]
-ASSUMPTIONS = ["retry_timeout < dead_timeout", "inner client calls do not touch the HashClient", "reading of 'a failing server': runs of consecutive failing contacts"]
+ASSUMPTIONS = ["retry_timeout < dead_timeout", "inner client calls do not touch the HashClient", "reading of 'a failing server': runs of consecutive failing contacts",
+               "reading of 'failing': connection-level failures, i.e. OSError and its subclasses (upstream's documented trigger); protocol-level errors "
+               "such as MemcacheUnexpectedCloseError are passed through or swallowed without failover bookkeeping"]
 NOT_COVERED = ["timing lemmas L1-L3 (window bounds, recovery) as machine-checked history lemmas: covered by the per-transition contracts and the bounded replay only",
                "the list of failed keys returned by _safely_run_set_many (key sets are opaque: A-filter)", "non-key-addressed operations (flush_all, stats, close, quit)"]
 BUDGET = {"quick": 40, "thorough": 120}
